@@ -11,6 +11,7 @@ package main
 // RequestFormatter from reflectively generated bodies.
 
 import (
+	"bytes"
 	"context"
 	"errors"
 	"fmt"
@@ -152,6 +153,23 @@ func c11LivelockDomain(req kmsg.Request, counts map[string]int32, ids map[[16]by
 	return hit
 }
 
+const c11FindingMemberID = "C11-joingroup-member-id-overflow"
+
+// c11MemberIDDomain: JoinGroup makes the coordinator mint a member id "<group>-<int63>"; with a
+// group id within 20 bytes of the 32767-byte STRING limit the id no longer fits the int16
+// length prefix of the non-flexible JoinGroup response (listed finding). With steer the
+// group id is cut to 250 bytes.
+func c11MemberIDDomain(req kmsg.Request, steer bool) bool {
+	jr, ok := req.(*kmsg.JoinGroupRequest)
+	if !ok || len(jr.Group) <= 32767-21 {
+		return false
+	}
+	if steer {
+		jr.Group = jr.Group[:250]
+	}
+	return true
+}
+
 type c11Result struct {
 	err      error
 	panicked any
@@ -254,6 +272,7 @@ func TestVF_C11_Broker(t *testing.T) {
 	brokerInfo := protocol.MetadataBroker{NodeID: 1, Host: "127.0.0.1", Port: 19092}
 	env := c11Env()
 	known := vfkit.Known(c11FindingLivelock)
+	knownMemberID := vfkit.Known(c11FindingMemberID)
 	inconclusive := ""
 	defer func() {
 		if inconclusive != "" {
@@ -288,6 +307,13 @@ func TestVF_C11_Broker(t *testing.T) {
 			// work on what is on the wire (fields a version does not carry are gone)
 			if canon := vfc10gen.NewRequest(p.Key, p.Version); canon.ReadFrom(p.Req.AppendTo(nil)) == nil {
 				p.Req = canon
+			}
+			if c11MemberIDDomain(p.Req, knownMemberID) {
+				if knownMemberID {
+					st.ExcludedCase(c11FindingMemberID)
+				} else {
+					st.Class("joingroup-group-id-near-32767")
+				}
 			}
 			counts, ids := c11PartitionCounts(store)
 			if c11LivelockDomain(p.Req, counts, ids, known) {
@@ -422,6 +448,46 @@ func TestVF_C11_Witness(t *testing.T) {
 	}
 	st.KnownResult(c11FindingLivelock, still, what)
 	st.NonTrivial("witness", still)
+	st.Sample(map[string]any{"result": what})
+	t.Log(what)
+}
+
+// TestVF_C11_WitnessMemberID replays the witness of C11-joingroup-member-id-overflow through
+// the real handler and judges the reply like any other: JoinGroup v4 with a 32767-byte group id.
+func TestVF_C11_WitnessMemberID(t *testing.T) {
+	st := vfkit.NewStats("C11", "witness-memberid")
+	defer st.Flush()
+	st.Eval()
+	log.SetOutput(io.Discard)
+	tb := vfc11kit.NewTable(generateApiVersions())
+	store := &c11Store{InMemoryStore: metadata.NewInMemoryStore(c11Metadata()), limit: 3000}
+	h := newHandler(store, storage.NewMemoryS3Client(), protocol.MetadataBroker{NodeID: 1, Host: "127.0.0.1", Port: 19092}, testLogger())
+	defer h.coordinator.Stop()
+	req := kmsg.NewPtrJoinGroupRequest()
+	req.SetVersion(4)
+	req.Group = string(bytes.Repeat([]byte{'g'}, 32767))
+	req.ProtocolType = "consumer"
+	req.SessionTimeoutMillis, req.RebalanceTimeoutMillis = 10000, 10000
+	pr := &vfc11kit.Probe{Key: 11, Version: 4, Class: "advertised", Advertised: true, Req: req, Corr: 11, ClientID: "vf-witness"}
+	if !c11MemberIDDomain(req, false) {
+		t.Fatalf("HARNESS BUG: the witness is outside the exclusion predicate")
+	}
+	cid := pr.ClientID
+	reply, err := h.Handle(context.Background(), &protocol.RequestHeader{APIKey: 11, APIVersion: 4, CorrelationID: pr.Corr, ClientID: &cid}, req)
+	msg := ""
+	if err != nil {
+		msg = "handler failed: " + err.Error()
+	} else {
+		msg, _ = vfc11kit.JudgeReply(pr, tb, reply)
+	}
+	what := "JoinGroup v4 with a 32767-byte group id: "
+	if msg != "" {
+		what += msg
+	} else {
+		what += "reply decodes at v4"
+	}
+	st.KnownResult(c11FindingMemberID, msg != "", what)
+	st.NonTrivial("witness-memberid", msg != "")
 	st.Sample(map[string]any{"result": what})
 	t.Log(what)
 }
